@@ -12,6 +12,8 @@ import (
 	"hash/fnv"
 	"os"
 	"path/filepath"
+	"runtime"
+	"runtime/debug"
 	"sort"
 	"strconv"
 	"strings"
@@ -123,7 +125,42 @@ func New(id string) *Run {
 			}
 		}
 	}
+	current = r
 	return r
+}
+
+// current is the Run of this test binary: Parallel reports panics of the code under test to it.
+var current *Run
+
+// panicSite walks a stack trace from the panic downwards, skipping the Go
+// runtime and standard library: if the first frame after those belongs to the
+// repository under test (not to a harness file) it returns that function.
+func panicSite(stack string) (fn string, inRepo bool) {
+	lines := strings.Split(stack, "\n")
+	seenPanic := false
+	for i := 0; i+1 < len(lines); i++ {
+		f, file := lines[i], strings.TrimSpace(lines[i+1])
+		if !strings.HasPrefix(lines[i+1], "\t") {
+			continue
+		}
+		i++
+		if strings.HasPrefix(f, "panic(") || strings.HasPrefix(f, "runtime.") {
+			seenPanic = true
+			continue
+		}
+		if !seenPanic {
+			continue // frames of the recover handler itself
+		}
+		if strings.HasPrefix(file, runtime.GOROOT()+"/") || strings.Contains(file, "/go/pkg/mod/") || strings.Contains(file, "/src/") && !strings.Contains(file, "vegeta") && !strings.Contains(file, "/verif") {
+			continue
+		}
+		harness := strings.Contains(file, "zz_verif_") || strings.Contains(file, "/verifshim/") || strings.Contains(file, "/verif/harness/") || strings.Contains(file, "/verif/engine/")
+		if j := strings.IndexByte(f, '('); j > 0 {
+			f = f[:j]
+		}
+		return f, !harness
+	}
+	return "", false
 }
 
 // Eval counts n evaluated cases.
@@ -425,7 +462,22 @@ func Parallel(n, workers int, f func(i int)) {
 		go func() {
 			defer wg.Done()
 			for i := range ch {
-				f(i)
+				func() {
+					defer func() {
+						x := recover()
+						if x == nil {
+							return
+						}
+						stack := string(debug.Stack())
+						if fn, inRepo := panicSite(stack); inRepo && current != nil {
+							// the code under test panicked: that is a finding of the check, not a harness fault
+							current.Violation("panic-in-code-under-test:"+fn, map[string]any{"panic": fmt.Sprint(x), "job": i, "stack": Trunc(stack, 1500)})
+							return
+						}
+						panic(x)
+					}()
+					f(i)
+				}()
 			}
 		}()
 	}
